@@ -25,6 +25,7 @@ def plan(ctx):
 
 
 def classify(case, pred, db, exp, got, diff):
+  if case.family == 'RECORD-FIELD-ORDER' and got[0] == 'rows': return 'F46-sqlite-record-written-with-fields-in-another-order-is-another-value'
   return None
 
 
